@@ -62,6 +62,18 @@ def mk_operand(su, kind, items):
         elif len(items) % 3 == 1:
             o.sort(key=lambda x: -x if isinstance(x, int) else 0)
         return o
+    if kind == 'iset-holes':
+        # an operand that was re-ordered first and THEN lost a few items from its middle, so it is carrying
+        # tombstones when it is used (whatever it iterates as is what it contributes)
+        extras = [10 ** 6 + i for i in range(max(6, len(items)))]
+        o = su.IndexedSet(list(items) + extras)
+        if len(items) % 2:
+            o.reverse()
+        else:
+            o.sort(key=lambda x: -x)
+        for x in extras[1:-1:2]:
+            o.discard(x)
+        return o
     raise ValueError(kind)
 
 
@@ -232,6 +244,35 @@ class Run(object):
             L[:] = now[1]
             if st is not None:
                 st.count('failed_updates')
+        elif name == 'iterate-and-read':
+            # an iteration in progress (forwards and backwards) while the loop body only READS the set: slices,
+            # indexing, index(), membership - a plain list's iterators are not disturbed by that
+            if len(op) > 2 and len(L) > 2:
+                # make sure there is a tombstone right now (the read-outs between steps may have squeezed them out)
+                victim = L[max(1, min(len(L) - 2, int(op[2] * len(L))))]
+                s.remove(victim)
+                L.remove(victim)
+            j = min(op[1], len(L))
+            it, rit = iter(s), reversed(s)
+            seen, rseen = [], []
+            for _ in range(j):
+                seen.append(next(it))
+                rseen.append(next(rit))
+            n = len(L)
+            for a, b in ((0, n), (max(0, j - 3), j + 1), (n // 2, None), (None, 2)):
+                s[a:b]
+            if n:
+                s[0], s[-1], s[n // 2]
+                s.index(L[n // 2])
+                L[0] in s
+            len(s), s.count(-5)
+            seen.extend(it)
+            rseen.extend(rit)
+            if seen != L or rseen != L[::-1]:
+                self.fail('iter[in-progress]', 'an iteration that was %d items in while the set was only read gave %s '
+                          '(backwards %s), the items are %s' % (j, trim(seen), trim(rseen), trim(L)))
+            if st is not None:
+                st.monitor_evals += 1
         elif name == 'reverse':
             expect(outcome(s.reverse), ('ok', None), 'result[reverse]')
             L.reverse()
@@ -351,7 +392,7 @@ class Check(object):
     def operand(self, r, pool, allow=('set', 'frozenset', 'list', 'tuple', 'iset')):
         kind = r.choice(allow)
         if kind == 'iset' and r.random() < 0.5:
-            kind = 'iset-messy'
+            kind = r.choice(['iset-messy', 'iset-holes'])
         n = r.choice([0, 1, 2, 3, 5])
         items = [r.choice(pool) for _ in range(n)]
         if r.random() < 0.12:
@@ -369,7 +410,7 @@ class Check(object):
         x = r.choice(pool)
         k = r.choices(['add', 'remove', 'discard', 'pop', 'clear', 'sort', 'reverse', 'update', 'inplace',
                        'algebra', 'operator', 'predicate'],
-                      [22, 14, 6, 10, 1, 3, 3, 8, 8, 10, 6, 6])[0]
+                      [22, 14, 6, 10, 1, 3, 6, 8, 8, 10, 6, 6])[0]
         if k == 'remove' and r.random() < 0.3:
             return ['remove_at', r.choice([0.0, 0.0, 0.999, r.random()])]     # first / last / somewhere
         if k in ('add', 'remove', 'discard'):
@@ -385,6 +426,8 @@ class Check(object):
         if k == 'update' and r.random() < 0.15:
             return ['update-fails', [r.choice(pool + [len(pool) + 1, len(pool) + 2]) for _ in range(r.choice([1, 2, 4]))],
                     r.randint(0, 4)]
+        if k == 'reverse' and r.random() < 0.5:
+            return ['iterate-and-read', r.choice([0, 1, 2, 3, 5, 8, 20]), r.random()]
         if k == 'reverse':
             return ['reverse']
         if k == 'update':
@@ -456,6 +499,12 @@ class Check(object):
                 ops.append(r.choice([['pop'], ['remove_at', 0.0], ['pop', ('i', 0.999)]]))
                 live = None
                 break
+            if 0.90 < x <= 0.93 and len(live) > 4:
+                f = r.random()
+                victim = live[max(1, min(len(live) - 2, int(f * len(live))))]
+                live.remove(victim)
+                ops.append(['iterate-and-read', r.choice([2, 5, len(live) // 2, len(live) - 2]), f])
+                continue
             if x > 0.93 and live:
                 near = [live[r.randrange(len(live))] for _ in range(3)] + [nxt + 7]
                 ops.append([r.choice(['union', 'or', 'difference', 'intersection', 'symmetric_difference']),
